@@ -49,8 +49,9 @@ EXH = {
 LIVE = {
     "quick": {"C10": [([1, 2], 3, 4, 1, ["add", "compactrange"], False, [1], ["reload", "reopen"])],
               "C04": [([1, 2], 1, 5, 2, ["add", "compactall"], False)]},
-    "thorough": {"C10": [([1, 2], 3, 6, 2, ["add", "compactrange", "compactall", "reload"], False),
-                         ([1, 2, 3], 2, 6, 1, ["add", "compactrange", "reload"], False)],
+    # (liveness checking costs about 2 000 states/s here: configurations of at most a few 10^5..10^6 states)
+    "thorough": {"C10": [([1, 2], 3, 4, 1, ["add", "compactrange"], False, [1], ["reload", "reopen"]),
+                         ([1, 2], 2, 6, 2, ["add", "compactrange", "reload"], False)],
                  "C04": [([1, 2], 2, 6, 2, ["add", "compactall", "clean"], False)],
                  "C16": [([1, 2], 2, 6, 2, ["add", "abort", "compactall", "clean"], False)]},
 }
@@ -172,7 +173,7 @@ def run(pid, tier):
                 with open(os.path.join(sd, "live.cfg"), "w") as f:
                     f.write(P.proto_cfg(hs, mo, mi, n, ops, crash, readers=rd, readerops=rops, invariants=False, live=True))
                 r = C.tlc(sd, "StackProto", "live.cfg", sc, workers=4 if tier == "quick" else 12,
-                          timeout=420 if tier == "quick" else 3600, heap="8g" if tier == "quick" else "24g")
+                          timeout=420 if tier == "quick" else 1800, heap="8g" if tier == "quick" else "24g")
                 r["cfg"] = dict(handles=hs, maxops=mo, maxids=mi, initn=n, opkinds=ops, crash=crash, readers=list(rd), readerops=list(rops), liveness="C10_EveryCallReturns under FairSpec")
                 r["live"] = True
                 exh.append(r)
